@@ -695,7 +695,8 @@ class PyvalColorizer:
             # In Python < 3.9, non-slices are always wrapped in an Index node.
             sub = sub.value
         self._output('[', self.GROUP_TAG, state)
-        if isinstance(sub, ast.Tuple):
+        if isinstance(sub, ast.Tuple) and len(sub.elts) > 1:
+            # The parenthesis of a tuple used as index can be omitted, unless it's empty or has a single element.
             self._multiline(self._colorize_iter, sub.elts, state)
         else:
             state.result.append(self.WORD_BREAK_OPPORTUNITY)
